@@ -233,7 +233,9 @@ def gen_stream(rng, model_name, canonicalize=False):
     return sep.join(texts) + rng.choice(['\n', ''])
 
 
-def gen_opts(rng, stable_only=False):
+def gen_opts(rng, stable_only=False, family=None):
+    if family is not None:
+        return gen_opts_family(rng, family)
     o = {}
     r = rng.random()
     if r < .45:
@@ -261,6 +263,31 @@ def gen_opts(rng, stable_only=False):
     if stable_only:
         o.pop('reconfigure', None)
         o.pop('--indicate-branches', None)
+    return o
+
+
+def gen_opts_family(rng, family):
+    """Option sets restricted to one property's operations (used by the C05 / C12 checks, which observe their
+    property at the command line too): 'layout' = --rearrange / --reconfigure / encode-with-model, 'transform' =
+    the four graph transformations."""
+    o = {}
+    r = rng.random()
+    if r < .5:
+        o['amr'] = True
+    elif r < .6:
+        o['model'] = True
+    if family == 'layout':
+        if rng.random() < .5:
+            o['rearrange'] = rng.choice(REARRANGE)
+        if rng.random() < .5 or 'rearrange' not in o:
+            o['reconfigure'] = rng.choice(RECONFIGURE + ['original,canonical', 'canonical,original'])
+    else:
+        for f in ['--reify-edges', '--dereify-edges', '--reify-attributes', '--indicate-branches']:
+            if rng.random() < .45:
+                o[f] = True
+        if not any(o.get(f) for f in NORM_FLAGS):
+            o[rng.choice(['--reify-edges', '--reify-attributes'])] = True
+    o['indent'] = rng.choice(INDENTS)
     return o
 
 
@@ -302,13 +329,14 @@ def normalised_inverse_reifiable(first_output, model):
 
 def one_case(args):
     """Worker: returns a list of (kind, key, what, case) findings for one generated case."""
-    idx, seed, tier = args
+    idx, seed, tier = args[:3]
+    family = args[3] if len(args) > 3 else None
     import random
-    rng = random.Random(f'C20:{seed}:{idx}')
+    rng = random.Random(f'C20:{family}:{seed}:{idx}')
     common.use_repo()
     findings = []
     mode = ['stdin', 'files'][rng.random() < .4]
-    opts = gen_opts(rng)
+    opts = gen_opts(rng, family=family)
     model_tbl = models.MINI_AMR if opts.get('model') else None
     model = get_model(opts, model_tbl)
     nstreams = 1 if mode == 'stdin' else rng.randint(1, 3)
@@ -353,6 +381,8 @@ def one_case(args):
         # (b) idempotence for stable option sets, single stream
         stable = not (opts.get('reconfigure') or opts.get('--indicate-branches') or opts.get('triples') or opts.get('check')
                       or 'random' in (opts.get('rearrange') or ''))
+        if family is not None:
+            stable = False
         if stable and COLLISION[0]:
             findings.append(('note', 'skipped-idempotence-constant-collides-with-new-variable'))
         elif stable and code == 0 and out:
@@ -380,6 +410,17 @@ def one_case(args):
         for f in os.listdir(tmpdir):
             os.unlink(os.path.join(tmpdir, f))
         os.rmdir(tmpdir)
+
+
+def run_family(chk, family, n):
+    """The tool compared with the documented library pipeline on one family of options (for C05 / C12)."""
+    res = common.pmap(one_case, [(i, chk.seed, chk.tier, family) for i in range(n)], chunk=10)
+    for idx, findings in enumerate(res):
+        chk.count(('cli-' + family, idx))
+        for f in findings:
+            if f[0] == 'fail':
+                chk.fail('cli-' + f[1], f'penman command ({family} options): ' + f[2], f[3])
+    chk.stat('cli-' + family + '-runs', n)
 
 
 def run(chk):
